@@ -195,12 +195,22 @@ func checkC15(in c15Input) (fs []failure, evaluated int) {
 	return fs, evaluated
 }
 
+func hasTagC(d cdoc, tag string) bool {
+	for _, t := range d.tags {
+		if t == tag {
+			return true
+		}
+	}
+	return false
+}
+
 func oracleC15(r *rng, n int, tier string) *oracleResult {
 	res := &oracleResult{Stats: map[string]int{}}
 	docs := codecDocs(r, n, tier)
 	seen := map[string]bool{}
 	for _, d := range docs {
-		if !d.nf || d.phase == 3 {
+		if (!d.nf || d.phase == 3) && !hasTagC(d, "status-spelling") {
+			// (response names of any spelling are kept: whatever the encoding of the decoded document holds is what pointers address)
 			continue
 		}
 		switch d.kind {
